@@ -200,7 +200,7 @@ def run_one(ctx: Any, seed: int, tier: str, replay: Optional[dict] = None) -> di
         warm = replay.get("warm", WARM)
         fresh_cold = replay.get("fresh_cold", True)
     else:
-        world = gen_fix_world(rng.fork("world"), {"kinds": KINDS + ["cte_multi", "cte_multi", "cte_multi", "cte_multi", "clean", "rulecase", "rulecase", "rulecase", "tmpl_undef", "tmpl_undef", "jinja_fixable", "jinja_fixable", "jinja_fixable"], "min_files": 3, "max_files": 7, "bait": 0.3, "jinja_loader": 0.5,
+        world = gen_fix_world(rng.fork("world"), {"kinds": KINDS + ["cte_multi", "cte_multi", "cte_multi", "cte_multi", "clean", "rulecase", "rulecase", "rulecase", "tmpl_undef", "tmpl_undef", "jinja_fixable", "jinja_fixable", "jinja_fixable"], "min_files": 3, "max_files": 7, "bait": 0.3, "jinja_loader": 0.5, "nested_templater": 0.6, "templater": ["jinja", "jinja", "jinja", "raw", "placeholder", "placeholder"],
                                                    "size_limits": rng.fork("f").chance(0.2)})
         history = gen_history(rng.fork("history"), world)
         pool = ctx.hashseeds(6)
